@@ -441,18 +441,20 @@ theorem bfull_case_codeSeq {E : Base.Case.Env} {lc uc fc : Char → Char}
   simp only [Option.some.injEq] at hf
   exact ((Base.Case.TokenCase.analyze_fix_caseOnly T p old new a hok ha hf).codeSeq fold).symm
 
-/-- formal parts of port / generic maps (2 rules), partial: no duplicate-by-case `case_exceptions` -/
-theorem bfull_case_formal_codeSeq_partial {E : Base.Case.Env} {lc uc fc : Char → Char}
+/-- formal parts of port / generic maps (2 rules), every `case_exceptions` list (the former hypothesis "no
+    duplicate-by-case entries" is gone with the repo repair of `check_for_exception`: the action points at
+    the formal part it was found in, not at the instantiation label) -/
+theorem bfull_case_formal_codeSeq {E : Base.Case.Env} {lc uc fc : Char → Char}
     (T : Base.Case.CharWise E fold lc uc fc) (owner : String) (ho : owner ∈ Base.caseFormalOwners)
     (params : Base.KV) (c : Base.Case.FormalPart.Classes) (p : Base.Case.Params) (old new : List Tok)
-    (acts : List Base.Case.Action) (a : Base.Case.Action) (hnd : Base.Case.NoCaseDup E p.exceptions)
+    (acts : List Base.Case.Action) (a : Base.Case.Action)
     (hok : ∀ t ∈ old, t.cls = c.formal → Base.Case.TokOk p t)
     (ha : Base.Case.FormalPart.analyzeToi E c p old = .ok acts) (hm : a ∈ acts)
     (hf : Base.fixByOwner owner params (Base.caseActionKV a) old = some (.ok new)) :
     codeSeq fold new = codeSeq fold old := by
   rw [Base.fixByOwner_formal owner ho] at hf
   simp only [Option.some.injEq] at hf
-  exact ((Base.Case.FormalPart.analyze_fix_caseOnly_partial T c p old new acts a hnd hok ha hm hf).codeSeq fold).symm
+  exact ((Base.Case.FormalPart.analyze_fix_caseOnly T c p old new acts a hok ha hm hf).codeSeq fold).symm
 
 /-! ### END ag_bcase -/
 
